@@ -48,6 +48,9 @@ BASES = {
     "strand_val": ([V3], [("cat", 0)], 0, (1, 2), [{}, {"rows": vs}], 3, 5),
     # weights 7 and 9 with the fractional value assignments only: counts at which a second moment computed by
     # the expanded square cancels to a negative residue
+    # weights 100001 and 99999: a cumulative share of 0.500005 is NOT an exact half
+    "rows_stats_nearhalf": ([G2, V3], [("cat", 0), ("cat", 1)], 1, (100001, 99999), [{}], 2, 3),
+    "cols_stats_nearhalf": ([V3, G2], [("cat", 0), ("cat", 1)], 0, (100001, 99999), [{}], 2, 3),
     "rows_stats_fracvals_w7_9": ([G2, V3], [("cat", 0), ("cat", 1)], 1, (7, 9), [{}], 2, 3),
     "cols_stats_fracvals_w7_9": ([V3, G2], [("cat", 0), ("cat", 1)], 0, (7, 9), [{}], 2, 3),
 }
@@ -70,7 +73,8 @@ def spaces(tier):
         def level(k, npf=npf, ncf=len(cfgs), name=name):
             def gen():
                 for ms in multisets(npf, k):
-                    for a in (range(N_EXACT, len(ASSIGN)) if "fracvals" in name else range(len(ASSIGN))):
+                    for a in (range(N_EXACT, len(ASSIGN)) if "fracvals" in name else
+                              range(0, N_EXACT, 4) if "nearhalf" in name else range(len(ASSIGN))):
                         for c in range(ncf):
                             yield (ms, a, c)
             return gen
